@@ -163,7 +163,9 @@ class NameStream(Stream):
                 fn = fn.replace("-", "", 1) if rng.random() < 0.5 else fn + "x"
                 comps = None
             return {"kind": "wheel", "fn": fn, "comps": comps}
-        name = rng.choice(["foo", "foo-bar", "zope.interface", "python-project", "py3dns", "backports-thing", "django-ajax-forms", "project-v2", "lib3-core", "a"])
+        name = rng.choice(["foo", "foo-bar", "zope.interface", "python-project", "py3dns", "backports-thing", "django-ajax-forms", "project-v2", "lib3-core", "a",
+                           # names that merely *contain* the words of a dumb binary distribution's platform suffix
+                           "python-linux-procfs", "baldwin", "darwin", "py_macosx", "win-tools", "gherkin-linux-tools"])
         ver = rng.choice(VER_POOL)
         ext = rng.choice([".tar.gz", ".zip", ".tgz", ".tar.bz2", ".tar"])
         return {"kind": "sdist", "fn": name + "-" + ver + ext, "comps": {"name": name, "ver": ver}}
